@@ -173,8 +173,55 @@ Definition run_len_case (args : list str) : str :=
   | None => bad_case
   end.
 
+(* wire.interleave: max, sched (scheduling only; not read), npings, tok..., nevents, then
+   per event: event..., pieces group.  Observation: the expected lines as a sorted
+   multiset (the order across concurrent senders is not an observable). *)
+Fixpoint interleave_events (n : nat) (max : Z) (a : list str) : option (list str) :=
+  match n with
+  | O => Some []
+  | S k =>
+    match dec_event a with
+    | None => None
+    | Some (e, r) =>
+      match take_n r with
+      | None => None
+      | Some (pieces, r') =>
+        match interleave_events k max r' with
+        | None => None
+        | Some l => Some (send (const_splitter pieces) false max e ++ l)
+        end
+      end
+    end
+  end.
+
+Definition run_interleave_case (args : list str) : str :=
+  match args with
+  | maxs :: _sched :: r =>
+    match parse_int maxs, take_n r with
+    | Some max, Some (toks, r1) =>
+      match r1 with
+      | ne :: r2 =>
+        match parse_count ne with
+        | Some n =>
+          match interleave_events n max r2 with
+          | Some lines =>
+            let pongs := flat_map (fun t => flat_map (fun c => send (const_splitter []) false max (to_wevent c))
+                                                     (cmd_pong t)) toks in
+            fmt_pieces (sort_strs (lines ++ pongs))
+          | None => bad_case
+          end
+        | None => bad_case
+        end
+      | [] => bad_case
+      end
+    | _, _ => bad_case
+    end
+  | _ => bad_case
+  end.
+
 Definition run_C03 (suite : str) (args : list str) : option str :=
   if streqb suite (bs "wire.helpers") then Some (run_helpers_case args)
   else if streqb suite (bs "wire.events") then Some (run_events_case args)
   else if streqb suite (bs "wire.len") then Some (run_len_case args)
+  else if streqb suite (bs "wire.interleave") then Some (run_interleave_case args)
   else None.
